@@ -2,7 +2,15 @@
 // E1 explicit-state exploration (with closure) of the real Gudhi::persistence_matrix::Matrix in its "base matrix"
 // flavours.  One binary = one column type (-DVF_CT=0..8) and one slice (-DVF_PART / -DVF_NPARTS) of the 50 option
 // shapes {Z_2,Z_p} x ({no rows, 4 row-access kinds} x {vector,map container} x {swaps off,on}  +  compression x 5).
+//
+// Every history is executed on a fresh Matrix inside an "executor" child of the exploring process (request/answer over
+// a pipe): a sanitizer abort, a signal or an endless loop inside the library is then one more observation of that
+// history (class C09:crash:...) and the exploration goes on.  The executor answers with the canonical key of the state
+// and with every disagreement between the real matrix and the dense reference model.
 #include "c09_common.hpp"
+
+#include <sys/wait.h>
+#include <unistd.h>
 
 #ifndef VF_CT
 #define VF_CT 0
@@ -12,6 +20,9 @@
 #endif
 #ifndef VF_NPARTS
 #define VF_NPARTS 1
+#endif
+#ifndef VF_SEL
+#define VF_SEL(s) true
 #endif
 
 using namespace c09;
@@ -23,7 +34,6 @@ static constexpr Column_types kColumnTypes[9] = {
 static constexpr Column_types CT = kColumnTypes[VF_CT];
 static constexpr int NVARIANTS = 50;
 
-// shape of variant v
 struct VShape {
   bool z2, ra, remrow, intr, mapc, swaps, comp;
 };
@@ -41,6 +51,7 @@ static constexpr VShape vshape(int v) {
 }
 static constexpr bool vvalid(int v) {
   VShape s = vshape(v);
+  if (!(VF_SEL(s))) return false;  // development aid: compile a subset of the shapes
   if (CT == Column_types::HEAP && (s.ra || s.comp)) return false;  // documented: heap has neither row access nor compression
   return true;
 }
@@ -58,15 +69,64 @@ static Shape to_shape(int v) {
 }
 
 // ---------------------------------------------------------------------------------------------------------------
-struct Reporter {
-  bool quiet = false;
-  bool diverged = false;
-  std::string cfg;
-  void bad(const std::string& cls, const std::string& detail) {
-    diverged = true;
-    if (!quiet) vf::mismatch(cls, cfg + " " + detail);
+enum { N_NCOLS, N_ZCOL, N_ZENT, N_CONTENT, N_CONTENT_DEF, N_SHARED, N_ZENT2, N_ROW, N_ROW_ABSENT, N_CMP };
+static const char* cmp_name[N_CMP] = {"cmp.get_number_of_columns", "cmp.is_zero_column", "cmp.is_zero_entry", "cmp.get_content",
+                                      "cmp.get_content_default_length", "cmp.shared_representative",
+                                      "cmp.is_zero_entry_after_get_column", "cmp.get_row", "rows.absent_from_container"};
+
+struct Finding {
+  std::string cls, detail;
+};
+// facts about the internal state used to name the situation in which a disagreement was seen
+struct Facts {
+  bool rowSwapped = false;     // a lazy permutation is pending
+  bool mapsIdentity = true;    // both swap maps are the identity on their domain
+  bool staleColIndex = false;  // row access: a column (or one of its entries) does not carry the index of its position
+  bool erasedAny = false;      // vector column: some lazily erased row recorded
+  bool erasedAbsent = false;   // vector column: a recorded erased row has no entry in the column
+  bool heapViolated = false;   // heap column: the array is not a heap
+  std::string str() const {
+    std::string s = "00000 0";
+    s[0] = '0' + rowSwapped; s[1] = '0' + mapsIdentity; s[2] = '0' + staleColIndex; s[3] = '0' + erasedAny;
+    s[4] = '0' + erasedAbsent; s[6] = '0' + heapViolated;
+    return s;
+  }
+  void parse(const std::string& s) {
+    if (s.size() < 7) return;
+    rowSwapped = s[0] == '1'; mapsIdentity = s[1] == '1'; staleColIndex = s[2] == '1'; erasedAny = s[3] == '1';
+    erasedAbsent = s[4] == '1'; heapViolated = s[6] == '1';
   }
 };
+struct Outcome {
+  std::string key = "BAD";
+  bool diverged = false;
+  std::vector<Finding> findings;
+  long long ncmp[N_CMP] = {0};
+};
+
+// ---- tiny framing for the executor pipe
+static bool write_all(int fd, const void* p, size_t n) {
+  const char* c = (const char*)p;
+  while (n) { ssize_t w = write(fd, c, n); if (w <= 0) return false; c += w; n -= (size_t)w; }
+  return true;
+}
+static bool read_all(int fd, void* p, size_t n) {
+  char* c = (char*)p;
+  while (n) { ssize_t r = read(fd, c, n); if (r <= 0) return false; c += r; n -= (size_t)r; }
+  return true;
+}
+static bool put_str(int fd, const std::string& s) {
+  uint32_t n = (uint32_t)s.size();
+  return write_all(fd, &n, 4) && write_all(fd, s.data(), n);
+}
+static bool get_str(int fd, std::string& s) {
+  uint32_t n;
+  if (!read_all(fd, &n, 4) || n > (1u << 24)) return false;
+  s.assign(n, '\0');
+  return n == 0 || read_all(fd, &s[0], n);
+}
+
+static bool g_keep_executor_stderr = false;
 
 template <class O>
 struct Driver {
@@ -79,32 +139,15 @@ struct Driver {
   static constexpr bool SWAPS = O::has_column_and_row_swaps;
   static constexpr bool MAPC = O::has_map_column_container;
   static constexpr bool REMROW = O::has_removable_rows;
+  static constexpr bool INTR = O::has_intrusive_rows;
 
   Rules rules;
-  mutable Reporter rep;
 
   // ------------------------------------------------------------------------------------------------ model side
   Model model_after(const std::vector<int>& hist, size_t n) const {
     Model m;
     for (size_t i = 0; i < n; ++i) rules.apply(m, rules.ops[hist[i]]);
     return m;
-  }
-  std::vector<int> enabled(const std::vector<int>& hist) const {
-    std::vector<int> r;
-    if (!hist.empty()) {
-      // a state whose last transition disagreed with the model is not expanded (its successors would be compared with
-      // a model the implementation has already left)
-      Reporter saved = rep;
-      rep.quiet = true;
-      rep.diverged = false;
-      run(hist);
-      bool d = rep.diverged;
-      rep = saved;
-      if (d) return r;
-    }
-    Model m = model_after(hist, hist.size());
-    for (size_t i = 0; i < rules.ops.size(); ++i) if (rules.enabled(m, rules.ops[i])) r.push_back((int)i);
-    return r;
   }
   std::string describe(const std::vector<int>& hist) const {
     std::ostringstream o;
@@ -159,24 +202,68 @@ struct Driver {
     }
   }
 
+  template <class It>
+  static const Entry* entry_of(const It& it) {
+    if constexpr (CT == Column_types::INTRUSIVE_LIST || CT == Column_types::INTRUSIVE_SET) return &*it;
+    else return *it;
+  }
+
   // internal representation of one column (storage order, lazy state)
   template <class Col>
   static void column_internals(const Col& c, std::ostringstream& o) {
     for (auto it = c.column_.begin(); it != c.column_.end(); ++it) {
-      const Entry* e;
-      if constexpr (CT == Column_types::INTRUSIVE_LIST || CT == Column_types::INTRUSIVE_SET) e = &*it;
-      else e = *it;
+      const Entry* e = entry_of(it);
       o << e->get_row_index();
       if constexpr (!Z2) o << ":" << (unsigned)e->get_element();
       if constexpr (RA) o << "@" << e->get_column_index();
       o << ",";
     }
+    if constexpr (RA) o << "i" << c.get_column_index();
     if constexpr (CT == Column_types::HEAP) o << "p" << c.insertsSinceLastPrune_;
     if constexpr (CT == Column_types::VECTOR) {
       std::vector<unsigned> er(c.erasedValues_.begin(), c.erasedValues_.end());
       std::sort(er.begin(), er.end());
       o << "e" << vf::join(er);
     }
+  }
+
+  template <class Col>
+  static void column_facts(const Col& c, unsigned position, Facts& f) {
+    std::vector<unsigned> rows;
+    for (auto it = c.column_.begin(); it != c.column_.end(); ++it) {
+      const Entry* e = entry_of(it);
+      rows.push_back(e->get_row_index());
+      if constexpr (RA) if (e->get_column_index() != position) f.staleColIndex = true;
+    }
+    if constexpr (RA) if (!rows.empty() && c.get_column_index() != position) f.staleColIndex = true;
+    if constexpr (CT == Column_types::HEAP) if (!std::is_heap(rows.begin(), rows.end())) f.heapViolated = true;
+    if constexpr (CT == Column_types::VECTOR) {
+      for (unsigned r : c.erasedValues_) {
+        f.erasedAny = true;
+        if (std::find(rows.begin(), rows.end(), r) == rows.end()) f.erasedAbsent = true;
+      }
+    }
+  }
+
+  Facts facts(M& m) const {
+    Facts f;
+    if constexpr (!COMP) {
+      auto& B = m.matrix_;
+      if constexpr (MAPC) { for (auto& kv : B.matrix_) column_facts(kv.second, kv.first, f); }
+      else { for (size_t i = 0; i < B.matrix_.size(); ++i) column_facts(B.matrix_[i], (unsigned)i, f); }
+      if constexpr (SWAPS) {
+        f.rowSwapped = B.rowSwapped_;
+        if constexpr (MAPC) {
+          for (auto& kv : B.indexToRow_) if (kv.first != kv.second) f.mapsIdentity = false;
+          for (auto& kv : B.rowToIndex_) if (kv.first != kv.second) f.mapsIdentity = false;
+        } else {
+          for (size_t i = 0; i < B.indexToRow_.size(); ++i) if (B.indexToRow_[i] != i) f.mapsIdentity = false;
+          for (size_t i = 0; i < B.rowToIndex_.size(); ++i) if (B.rowToIndex_[i] != i) f.mapsIdentity = false;
+          if (B.rowToIndex_.size() != B.indexToRow_.size()) f.mapsIdentity = false;
+        }
+      }
+    }
+    return f;
   }
 
   template <class Dict>
@@ -246,30 +333,64 @@ struct Driver {
     return o.str();
   }
 
+  // Names the situation in which a disagreement was observed, so that different root causes get different classes.
+  // pre = facts before the last operation, post = facts at the moment of the observation.
+  std::string situation(const Op* o, const Model& before, const Facts& pre, const Facts& post, bool exception) const {
+    const Shape& S = rules.S;
+    if (!o) return "initial_state";
+    bool range_op = o->k == ADD_R || o->k == MTA_R || o->k == MSA_R;
+    bool add_op = range_op || o->k == ADD || o->k == MTA || o->k == MSA;
+    bool target_zero = add_op && before.cols.count(o->b) && rules.is_zero(before.cols.at(o->b));
+    if (CT == Column_types::HEAP) {
+      if (pre.heapViolated || post.heapViolated) return "heap_column_not_a_heap_after_range_copied_into_empty_column";
+      if ((o->k == MSA || o->k == MSA_R) && target_zero) return "heap_column_multiply_source_and_add_into_empty_column";
+    }
+    if (CT == Column_types::VECTOR) {
+      if (pre.erasedAbsent || post.erasedAbsent) return "vector_column_zeroed_absent_entry_recorded_as_erased";
+      if (pre.erasedAny || post.erasedAny) return std::string("vector_column_lazily_erased_entry") + (target_zero ? "_and_empty_target" : "");
+    }
+    if (S.swaps) {
+      if (range_op && pre.rowSwapped && !pre.mapsIdentity) return "entry_range_rows_not_translated_under_pending_row_swap";
+      if (exception && o->k == INS_AT && !S.mapc && pre.rowSwapped) return "insert_column_at_counted_before_pending_reorder";
+      if (S.ra && (pre.staleColIndex || post.staleColIndex || o->k == SWAP_C))
+        return S.intr ? "column_index_outdated_after_swap_columns" : "set_rows_after_swap_columns";
+      if (o->k == SWAP_R && (!before.known.count(o->a) || !before.known.count(o->b))) return "swap_rows_with_row_unknown_to_the_maps";
+      if (exception && pre.rowSwapped) return "reorder_bounded_by_number_of_columns";
+      if (!post.mapsIdentity && !post.rowSwapped) return "reorder_bounded_by_number_of_columns";
+    }
+    return std::string("unclassified_") + kind_name[o->k];
+  }
+
   // ------------------------------------------------------------------------------------------------ observation
-  void observe(M& m, const Model& mod, const std::string& last) const {
+  void observe(M& m, const Model& mod, Outcome& out, const std::function<std::string()>& sit) const {
     const Universe& U = rules.U;
     const Shape& S = rules.S;
-    auto cls = [&](const std::string& observer) { return "C09:" + observer + ":" + last; };
-    auto ctx = [&]() { return " model=" + mod.key() + " impl=" + internals(m); };
+    std::string sit_cache;
+    auto bad = [&](const std::string& observer, const std::string& detail) {
+      if (sit_cache.empty()) sit_cache = sit();
+      out.diverged = true;
+      if (out.findings.size() < 12)
+        out.findings.push_back({"C09:" + observer + ":" + sit_cache, S.name + " " + detail + " model=" + mod.key() + " impl=" + internals(m)});
+    };
+    long long* ncmp = out.ncmp;
 
     // ---- phase A: readers that do not force the lazy row permutation
     unsigned want_n = (unsigned)((S.mapc && !S.comp) ? mod.cols.size() : mod.next);
     unsigned got_n = m.get_number_of_columns();
-    vf::stats().add("cmp.get_number_of_columns");
-    if (got_n != want_n) rep.bad(cls("get_number_of_columns"), "got " + std::to_string(got_n) + " want " + std::to_string(want_n) + ctx());
+    ncmp[N_NCOLS]++;
+    if (got_n != want_n) bad("get_number_of_columns", "got " + std::to_string(got_n) + " want " + std::to_string(want_n));
     for (auto& kv : mod.cols) {
       unsigned i = (unsigned)kv.first;
       bool wz = rules.is_zero(kv.second);
       bool gz = m.is_zero_column(i);
-      vf::stats().add("cmp.is_zero_column");
-      if (gz != wz) rep.bad(cls("is_zero_column"), "column " + std::to_string(i) + " got " + std::to_string(gz) + " want " + std::to_string(wz) + ctx());
+      ncmp[N_ZCOL]++;
+      if (gz != wz) bad("is_zero_column", "column " + std::to_string(i) + " got " + std::to_string(gz) + " want " + std::to_string(wz));
       for (int r = 0; r < U.R; ++r) {
         if (S.swaps && !mod.known.count(r)) continue;
         bool we = kv.second[r] == 0;
         bool ge = m.is_zero_entry(i, (unsigned)r);
-        vf::stats().add("cmp.is_zero_entry");
-        if (ge != we) rep.bad(cls("is_zero_entry"), "(" + std::to_string(i) + "," + std::to_string(r) + ") got " + std::to_string(ge) + " want " + std::to_string(we) + ctx());
+        ncmp[N_ZENT]++;
+        if (ge != we) bad("is_zero_entry", "(" + std::to_string(i) + "," + std::to_string(r) + ") got " + std::to_string(ge) + " want " + std::to_string(we));
       }
     }
     // ---- phase B: contents (get_column applies the pending row permutation)
@@ -278,14 +399,14 @@ struct Driver {
       auto& col = m.get_column(i);
       auto got = col.get_content(U.R);
       Dense g(got.begin(), got.end());
-      vf::stats().add("cmp.get_content");
-      if (g != kv.second) rep.bad(cls("get_content"), "column " + std::to_string(i) + " got " + dense_str(g) + " want " + dense_str(kv.second) + ctx());
+      ncmp[N_CONTENT]++;
+      if (g != kv.second) bad("get_content", "column " + std::to_string(i) + " got " + dense_str(g) + " want " + dense_str(kv.second));
       auto got2 = col.get_content();
       Dense g2(got2.begin(), got2.end());
       Dense w2 = kv.second;
       while (!w2.empty() && w2.back() == 0) w2.pop_back();
-      vf::stats().add("cmp.get_content_default_length");
-      if (g2 != w2) rep.bad(cls("get_content_default_length"), "column " + std::to_string(i) + " got " + dense_str(g2) + " want " + dense_str(w2) + ctx());
+      ncmp[N_CONTENT_DEF]++;
+      if (g2 != w2) bad("get_content_default_length", "column " + std::to_string(i) + " got '" + dense_str(g2) + "' want '" + dense_str(w2) + "'");
     }
     if constexpr (COMP) {
       // identical non-zero columns share one representative object, different columns do not
@@ -293,9 +414,9 @@ struct Driver {
         if (a.first >= b.first) continue;
         if (rules.is_zero(a.second) || rules.is_zero(b.second)) continue;
         bool same = &m.get_column((unsigned)a.first) == &m.get_column((unsigned)b.first);
-        vf::stats().add("cmp.shared_representative");
+        ncmp[N_SHARED]++;
         if (same != (a.second == b.second))
-          rep.bad(cls("shared_representative"), "columns " + std::to_string(a.first) + "," + std::to_string(b.first) + " share=" + std::to_string(same) + ctx());
+          bad("shared_representative", "columns " + std::to_string(a.first) + "," + std::to_string(b.first) + " share=" + std::to_string(same));
       }
     }
     // ---- phase C: the entry readers again, now that the permutation has been applied
@@ -306,12 +427,12 @@ struct Driver {
           if (!mod.known.count(r)) continue;
           bool we = kv.second[r] == 0;
           bool ge = m.is_zero_entry(i, (unsigned)r);
-          vf::stats().add("cmp.is_zero_entry_after_get_column");
-          if (ge != we) rep.bad(cls("is_zero_entry_after_get_column"), "(" + std::to_string(i) + "," + std::to_string(r) + ") got " + std::to_string(ge) + " want " + std::to_string(we) + ctx());
+          ncmp[N_ZENT2]++;
+          if (ge != we) bad("is_zero_entry_after_get_column", "(" + std::to_string(i) + "," + std::to_string(r) + ") got " + std::to_string(ge) + " want " + std::to_string(we));
         }
         bool wz = rules.is_zero(kv.second);
         bool gz = m.is_zero_column(i);
-        if (gz != wz) rep.bad(cls("is_zero_column_after_get_column"), "column " + std::to_string(i) + " got " + std::to_string(gz) + " want " + std::to_string(wz) + ctx());
+        if (gz != wz) bad("is_zero_column_after_get_column", "column " + std::to_string(i) + " got " + std::to_string(gz) + " want " + std::to_string(wz));
       }
     }
     // ---- rows
@@ -319,16 +440,16 @@ struct Driver {
       auto* rows = m.matrix_.rows_;
       for (int r = 0; r < U.R; ++r) {
         if (mod.cols.empty()) break;
-        if constexpr (!COMP) (void)m.get_column((unsigned)mod.cols.begin()->first);  // rows are ordered by any get_column / get_row
         bool present;
         if constexpr (REMROW) present = rows->count((unsigned)r) > 0;
         else present = (size_t)r < rows->size();
         std::vector<std::pair<int, int>> want;  // (column, value)
         for (auto& kv : mod.cols) if (kv.second[r]) want.push_back({kv.first, kv.second[r]});
-        vf::stats().add("cmp.get_row");
+        ncmp[N_ROW]++;
         if (!present) {
-          vf::stats().add("rows.absent_from_container");
-          if (!want.empty()) rep.bad(cls("get_row:row_missing"), "row " + std::to_string(r) + " has no container entry" + ctx());
+          // a row the container has never seen (or that was erased as empty) can only be a zero row
+          ncmp[N_ROW_ABSENT]++;
+          if (!want.empty()) bad("get_row", "row " + std::to_string(r) + " has no container entry");
           continue;
         }
         const auto& row = m.get_row((unsigned)r);
@@ -346,9 +467,9 @@ struct Driver {
           for (auto& p : v) s += "(" + std::to_string(p.first) + ":" + std::to_string(p.second) + ")";
           return s;
         };
-        if (!rowidx_ok) rep.bad(cls("get_row:entry_row_index"), "row " + std::to_string(r) + " lists an entry of another row" + ctx());
+        if (!rowidx_ok) bad("get_row", "row " + std::to_string(r) + " lists an entry whose row index is another row");
         if constexpr (!COMP) {
-          if (got != want) rep.bad(cls("get_row"), "row " + std::to_string(r) + " got " + pr(got) + " want " + pr(want) + ctx());
+          if (got != want) bad("get_row", "row " + std::to_string(r) + " got " + pr(got) + " want " + pr(want));
         } else {
           // one entry per class with a non-zero value in this row; its column index is a member of that class
           std::map<int, int> class_val;
@@ -359,66 +480,192 @@ struct Driver {
             auto it = mod.cls.find(g.first);
             if (it == mod.cls.end() || !class_val.count(it->second) || class_val[it->second] != g.second || !seen_cls.insert(it->second).second) ok = false;
           }
-          if (!ok) rep.bad(cls("get_row"), "row " + std::to_string(r) + " got " + pr(got) + " want one entry per class of " + pr(want) + ctx());
+          if (!ok) bad("get_row", "row " + std::to_string(r) + " got " + pr(got) + " want one entry per class of " + pr(want));
         }
       }
     }
   }
 
-  // executes hist on a fresh matrix; compares the whole observable state after the last operation
-  std::string execute(const std::vector<int>& hist) const {
+  // executes hist on a fresh matrix; compares the whole observable state after the last operation.
+  // pre_fd >= 0: the facts before the last operation are written there first (the caller needs them if we die).
+  Outcome execute(const std::vector<int>& hist, int pre_fd) const {
     const Universe& U = rules.U;
+    Outcome out;
     M m(0u, (typename M::Characteristic)U.P);
-    Model mod;
-    std::string last = "initial";
+    Model mod, before;
+    Facts pre;
+    const Op* last = nullptr;
+    bool in_last = false;
     try {
       for (size_t i = 0; i < hist.size(); ++i) {
         const Op& o = rules.ops[hist[i]];
+        if (i + 1 == hist.size()) {
+          before = mod;
+          pre = facts(m);
+          last = &o;
+          if (pre_fd >= 0) { put_str(pre_fd, pre.str()); pre_fd = -1; }
+          in_last = true;
+        }
         rules.apply(mod, o);
         apply_impl(m, o);
-        last = kind_name[o.k];
       }
-      std::string key = mod.key() + internals(m);
-      observe(m, mod, last);
-      return key;
+      if (pre_fd >= 0) put_str(pre_fd, pre.str());
+      in_last = false;
+      out.key = mod.key() + internals(m);
+      observe(m, mod, out, [&]() { return situation(last, before, pre, facts(m), false); });
     } catch (const std::exception& e) {
-      std::string w = e.what();
-      std::string k = w.find("at") != std::string::npos || w.find("range") != std::string::npos ? "out_of_range" : "other";
-      rep.bad("C09:exception:" + k + ":" + last, std::string("exception '") + w + "' model=" + mod.key());
+      if (pre_fd >= 0) put_str(pre_fd, pre.str());
+      out.diverged = true;
+      std::string sit = situation(last, before, pre, facts(m), true);
+      out.findings.push_back({"C09:exception:" + sit, rules.S.name + " exception '" + e.what() + "' " + (in_last ? "in the last operation" : "while reading the state") +
+                                                          " model=" + mod.key()});
+    }
+    if (out.diverged) out.key = "BAD";
+    return out;
+  }
+
+  // ------------------------------------------------------------------------------------------------- executor
+  mutable pid_t srv_pid = -1, srv_owner = -1;
+  mutable int srv_in = -1, srv_out = -1;  // we write requests to srv_in, read answers from srv_out
+
+  void serve(int rfd, int wfd) const {
+    vf::g_probe_child = true;
+    if (!g_keep_executor_stderr) {
+      int fd = open("/dev/null", O_WRONLY);
+      if (fd >= 0) dup2(fd, 2);
+    }
+    for (;;) {
+      uint32_t n;
+      if (!read_all(rfd, &n, 4)) _exit(0);
+      std::vector<int> hist(n);
+      if (n && !read_all(rfd, hist.data(), 4 * (size_t)n)) _exit(0);
+      alarm(10);
+      Outcome out = execute(hist, wfd);
+      alarm(0);
+      uint32_t nf = (uint32_t)out.findings.size();
+      uint32_t d = out.diverged;
+      bool ok = put_str(wfd, out.key) && write_all(wfd, &d, 4) && write_all(wfd, &nf, 4);
+      for (auto& f : out.findings) ok = ok && put_str(wfd, f.cls) && put_str(wfd, f.detail);
+      ok = ok && write_all(wfd, out.ncmp, sizeof(out.ncmp));
+      if (!ok) _exit(0);
+    }
+  }
+  void stop_server() const {
+    if (srv_in >= 0) close(srv_in);
+    if (srv_out >= 0) close(srv_out);
+    if (srv_pid > 0 && srv_owner == getpid()) { int st; waitpid(srv_pid, &st, 0); }
+    srv_pid = -1; srv_in = srv_out = -1;
+  }
+  bool start_server() const {
+    if (srv_pid > 0 && srv_owner != getpid()) {  // inherited from the process that forked us: not ours
+      close(srv_in); close(srv_out);
+      srv_pid = -1; srv_in = srv_out = -1;
+    }
+    if (srv_pid > 0) return true;
+    int req[2], ans[2];
+    if (pipe(req) != 0 || pipe(ans) != 0) return false;
+    fflush(stdout);
+    pid_t p = fork();
+    if (p < 0) return false;
+    if (p == 0) {
+      close(req[1]); close(ans[0]);
+      serve(req[0], ans[1]);
+      _exit(0);
+    }
+    close(req[0]); close(ans[1]);
+    srv_pid = p; srv_owner = getpid(); srv_in = req[1]; srv_out = ans[0];
+    return true;
+  }
+
+  // returns false if the executor died while executing hist; pre is filled when it got as far as the last operation
+  bool remote(const std::vector<int>& hist, Outcome& out, Facts& pre, bool& got_pre) const {
+    got_pre = false;
+    if (!start_server()) { fprintf(stderr, "cannot start the executor\n"); _exit(9); }
+    uint32_t n = (uint32_t)hist.size();
+    bool ok = write_all(srv_in, &n, 4) && (n == 0 || write_all(srv_in, hist.data(), 4 * (size_t)n));
+    std::string ps;
+    if (ok && get_str(srv_out, ps)) { pre.parse(ps); got_pre = true; } else ok = false;
+    uint32_t d = 0, nf = 0;
+    ok = ok && get_str(srv_out, out.key) && read_all(srv_out, &d, 4) && read_all(srv_out, &nf, 4) && nf < 1000;
+    if (ok) {
+      out.diverged = d != 0;
+      out.findings.resize(nf);
+      for (auto& f : out.findings) ok = ok && get_str(srv_out, f.cls) && get_str(srv_out, f.detail);
+      ok = ok && read_all(srv_out, out.ncmp, sizeof(out.ncmp));
+    }
+    if (!ok) stop_server();
+    return ok;
+  }
+
+  std::string crash_situation(const Model& before, const Op& o, bool got_pre, const Facts& pre) const {
+    std::string r = rules.risky(before, o);
+    if (!r.empty()) return r;
+    if (!got_pre) return "while_replaying_the_prefix";
+    std::string s = situation(&o, before, pre, pre, true);
+    return s;
+  }
+
+  mutable std::map<std::string, int> deaths;  // per certain-crash situation, in this process
+
+  // one transition: returns the canonical key ("BAD" when the implementation left the model)
+  std::string step(const std::vector<int>& hist, bool quiet, bool& diverged) const {
+    diverged = false;
+    Model before;
+    const Op* o = nullptr;
+    std::string why;
+    if (!hist.empty()) {
+      before = model_after(hist, hist.size() - 1);
+      o = &rules.ops[hist.back()];
+      why = rules.risky(before, *o);
+      // a situation in which every execution has died so far is not executed again and again in this process
+      if (!why.empty() && rules.certain(why) && deaths[why] >= 3) {
+        if (!quiet) vf::stats().add("not_executed.assumed_crash." + why);
+        diverged = true;
+        return "BAD";
+      }
+    }
+    Outcome out;
+    Facts pre;
+    bool got_pre = false;
+    if (!remote(hist, out, pre, got_pre)) {
+      diverged = true;
+      std::string sit = o ? crash_situation(before, *o, got_pre, pre) : "initial_state";
+      deaths[sit]++;
+      if (!quiet) {
+        vf::stats().add("executor_died." + sit);
+        vf::mismatch("C09:crash:" + sit, rules.S.name + " the process died (sanitizer report, signal or endless loop) executing " +
+                                             (o ? rules.op_text(*o) : std::string("nothing")) + "; model before=" + before.key() +
+                                             " facts before=" + (got_pre ? pre.str() : "?"));
+      }
       return "BAD";
     }
+    diverged = out.diverged;
+    if (!quiet) {
+      for (auto& f : out.findings) vf::mismatch(f.cls, f.detail);
+      for (int i = 0; i < N_CMP; ++i) if (out.ncmp[i]) vf::stats().add(cmp_name[i], out.ncmp[i]);
+      vf::stats().add("observations");
+      if (o) vf::stats().add(std::string("op.") + kind_name[o->k]);
+      if (!why.empty()) vf::stats().add("executed.no_dedicated_path." + why);
+    }
+    return out.key;
   }
 
   std::string run(const std::vector<int>& hist) const {
-    rep.cfg = rules.S.name;
+    bool d;
+    return step(hist, false, d);
+  }
+  std::vector<int> enabled(const std::vector<int>& hist) const {
+    std::vector<int> r;
     if (!hist.empty()) {
-      Model before = model_after(hist, hist.size() - 1);
-      const Op& o = rules.ops[hist.back()];
-      std::string why = rules.risky(before, o);
-      if (!why.empty()) {
-        vf::stats().add("probe." + why);
-        bool q = rep.quiet, d = rep.diverged;
-        std::string res = vf::probe_range(0, 1, [&](size_t) { rep.quiet = true; execute(hist); return 'k'; }, 5);
-        rep.quiet = q;
-        rep.diverged = d;
-        if (res != "k") {
-          vf::stats().add("probe_died." + why);
-          rep.bad(std::string("C09:crash:") + kind_name[o.k] + ":" + why,
-                  "the process died (sanitizer report, signal or endless loop) executing the last operation; model before=" + before.key());
-          return "BAD";
-        }
-      }
+      // a state whose last transition disagreed with the model is not expanded (its successors would be compared with
+      // a model the implementation has already left)
+      bool d;
+      step(hist, true, d);
+      if (d) return r;
     }
-    bool was = rep.diverged;
-    rep.diverged = false;
-    std::string key = execute(hist);
-    bool d = rep.diverged;
-    rep.diverged = was || d;
-    if (!rep.quiet) {
-      vf::stats().add("observations");
-      if (!hist.empty()) vf::stats().add(std::string("op.") + kind_name[rules.ops[hist.back()].k]);
-    }
-    return d ? "BAD" : key;
+    Model m = model_after(hist, hist.size());
+    for (size_t i = 0; i < rules.ops.size(); ++i) if (rules.enabled(m, rules.ops[i])) r.push_back((int)i);
+    return r;
   }
 };
 
@@ -429,8 +676,8 @@ struct RunArgs {
   int workers = 2;
   int validate = 0;
   double deadline = 1e18;
-  std::string only;       // substring filter on configuration names
-  std::string replay_cfg; // replay: configuration name
+  std::vector<std::string> only;  // substring filters on configuration names (any)
+  std::string replay_cfg;         // replay: configuration name
   std::vector<int> replay_ops;
   bool failed = false;
   int configs = 0;
@@ -442,7 +689,11 @@ void run_variant(RunArgs& A) {
   using O = Opt<s.z2, CT, s.ra, s.remrow, s.intr, s.mapc, s.swaps, s.comp>;
   Shape S = to_shape(V);
   if (s.z2 != (A.U.P == 2)) return;
-  if (!A.only.empty() && S.name.find(A.only) == std::string::npos) return;
+  if (!A.only.empty()) {
+    bool any = false;
+    for (auto& f : A.only) if (S.name.find(f) != std::string::npos) any = true;
+    if (!any) return;
+  }
   if (!A.replay_cfg.empty() && S.name != A.replay_cfg) return;
   Driver<O> d;
   d.rules.U = A.U;
@@ -456,6 +707,7 @@ void run_variant(RunArgs& A) {
       d.run(p);
       vf::end_case();
     }
+    d.stop_server();
     return;
   }
   vf::ExploreCfg cfg;
@@ -465,6 +717,7 @@ void run_variant(RunArgs& A) {
   cfg.validate_per_level = A.validate;
   cfg.scratch = "build/scratch";
   vf::ExploreResult r = vf::explore(d, cfg);
+  d.stop_server();
   vf::Stats& st = vf::stats();
   st.add("ev.states", r.states);
   st.add("ev.transitions", r.transitions);
@@ -489,9 +742,18 @@ void dispatch(RunArgs& A) {
   }
 }
 
+static std::vector<std::string> split(const std::string& s, char sep) {
+  std::vector<std::string> r;
+  std::string cur;
+  for (char c : s) { if (c == sep) { if (!cur.empty()) r.push_back(cur); cur.clear(); } else cur += c; }
+  if (!cur.empty()) r.push_back(cur);
+  return r;
+}
+
 int main(int argc, char** argv) {
   vf::Args a = vf::parse_args(argc, argv);
   vf::install_handlers();
+  signal(SIGPIPE, SIG_IGN);
   double t0 = vf::now_s();
   RunArgs A;
   A.U.R = (int)a.geti("R", 3);
@@ -501,8 +763,9 @@ int main(int argc, char** argv) {
   A.depth = (int)a.geti("depth", -1);
   A.workers = (int)a.geti("workers", 2);
   A.validate = (int)a.geti("validate", 0);
-  A.only = a.get("only", "");
+  A.only = split(a.get("only", ""), '+');
   A.deadline = t0 + (double)a.geti("budget", 120);
+  g_keep_executor_stderr = a.geti("executor-stderr", 0) != 0;
   if (!a.replay.empty()) {
     auto kv = vf::parse_kv(a.replay);
     A.replay_cfg = kv["cfg"];
@@ -511,6 +774,8 @@ int main(int argc, char** argv) {
     A.U.P = atoi(kv["P"].c_str());
     A.U.coefs = vf::parse_ints(kv["coefs"]);
     A.replay_ops = vf::parse_ints(kv["ops"]);
+    A.only.clear();
+    g_keep_executor_stderr = true;
   }
   A.U.init();
   dispatch<0>(A);
